@@ -341,8 +341,9 @@ pub struct RefRun {
     pub stats: BTreeMap<&'static str, u64>,
     pub reads: u64,
     pub max_call_depth: usize,
-    /// output line count at the moment each statement started (for C08's ordering check)
     pub says: u64,
+    /// (operator, kind of left, kind of right) cells the run evaluated
+    pub cells: std::collections::BTreeSet<(BinOp, Kind, Kind)>,
 }
 
 #[derive(Clone, Debug)]
@@ -363,7 +364,7 @@ impl Default for Budget {
 // ------------------------------------------------------------------------- interpreter
 
 #[derive(Debug)]
-enum Stop {
+pub enum Stop {
     Error(String),
     DontCare(String),
     OverBudget(String),
@@ -422,6 +423,7 @@ pub struct Interp<'i> {
     says: u64,
     max_call_depth: usize,
     ret: Option<V>,
+    cells: std::collections::BTreeSet<(BinOp, Kind, Kind)>,
     /// variables named since the current statement started (keys)
     named: Vec<String>,
     /// options
@@ -443,6 +445,7 @@ pub fn run(p: &Program, input: &[u8], budget: &Budget) -> RefRun {
         says: 0,
         max_call_depth: 0,
         ret: None,
+        cells: Default::default(),
         named: Vec::new(),
         strict_pronoun_order: true,
     };
@@ -477,6 +480,7 @@ pub fn run(p: &Program, input: &[u8], budget: &Budget) -> RefRun {
         reads: it.reads,
         max_call_depth: it.max_call_depth,
         says: it.says,
+        cells: it.cells,
     }
 }
 
@@ -757,10 +761,10 @@ impl<'i> Interp<'i> {
     pub fn index_kind(k: &V) -> X<IndexKind> {
         match k {
             V::Num(n) => {
-                if n.is_nan() || *n < 0.0 || n.fract() != 0.0 || *n >= 9007199254740992.0 {
-                    dc("array index that is negative, fractional, NaN or >= 2^53")
-                } else if *n > 1_000_000.0 {
+                if *n > 1_000_000.0 {
                     Err(Stop::OverBudget("huge array index".into()))
+                } else if n.is_nan() || *n < 0.0 || n.fract() != 0.0 {
+                    dc("array index that is negative, fractional or NaN")
                 } else {
                     Ok(IndexKind::Seq(*n as usize))
                 }
@@ -896,6 +900,7 @@ impl<'i> Interp<'i> {
     fn binop_step(&mut self, op: BinOp, a: V, b: &Expr) -> X<V> {
         match op {
             BinOp::And => {
+                self.cells.insert((op, a.kind(), Kind::Mys));
                 if !a.truthy() {
                     self.stat("short_circuits");
                     return Ok(V::Bool(false));
@@ -927,6 +932,7 @@ impl<'i> Interp<'i> {
     }
 
     pub fn binop_vals(&mut self, op: BinOp, a: &V, bv: &V) -> X<V> {
+        self.cells.insert((op, a.kind(), bv.kind()));
         match op {
             BinOp::Plus => self.ar(plus(a, bv)),
             BinOp::Minus => self.ar(minus(a, bv)),
